@@ -2,7 +2,7 @@ use std::collections::{HashMap, HashSet};
 use std::fmt::Write as _;
 use std::time::{Duration, Instant};
 
-use crate::exec::{exec_run, reset_library, EvalRec};
+use crate::exec::{exec_run, exec_run_opt, reset_library, EvalRec};
 use crate::gen::{draw_swarm, gen_pool, gen_run, GenStats, Leap, ERA_NAMES};
 use crate::query::*;
 use crate::rng::{fnv, mix, Rng, FNV0};
@@ -111,9 +111,6 @@ fn cold_script(key: &str) -> String {
 fn cold_eval(key: &str, watchdog: Duration) -> Result<(char, u64), String> {
   let runs = parse_runs(&cold_script(key)).map_err(|e| format!("harness-panic: cold script: {}", e))?;
   let out = exec_run(&runs[0], false, false, watchdog);
-  if out.result.watchdog {
-    return Err("watchdog".to_string());
-  }
   if let Some(a) = &out.result.abort {
     return Err(a.clone());
   }
@@ -232,6 +229,8 @@ pub fn explore(args: &[String]) -> i32 {
   let mut cold_evaluations = 0u64;
   let mut cold_comparisons = 0u64;
   let mut stop_worker = false;
+  let mut free_runs = 0u64;
+  let mut hung = false;
 
   // Compare every evaluation made since the last restart with the answer the same query gets
   // right after a restart. Runs only at points where the next run starts with a restart anyway.
@@ -250,7 +249,10 @@ pub fn explore(args: &[String]) -> i32 {
             cold.insert(k, a);
           }
           Err(why) => {
-            if why == "watchdog" || why.starts_with("harness-panic") {
+            if why.starts_with("watchdog") {
+              hung = true;
+            }
+            if why.starts_with("harness-panic") {
               harness_error = Some(format!("{} in the cold evaluation of `{}` (worker {}, seed {})", why, k, worker, seed));
             } else {
               violations.push(Violation { obligation: "P", key: String::new(), detail: why, run: run_texts.len().saturating_sub(1), history_from: 0, history_text: Some(cold_script(&k)) });
@@ -308,9 +310,8 @@ pub fn explore(args: &[String]) -> i32 {
     let run_index = run_texts.len();
     run_texts.push(format!("# seed={} worker={} run={} run_seed={} era={} policy={}\n{}", seed, worker, r, run_seed, ERA_NAMES[sw.era as usize], sw.policy.name(), script.to_text(Some(&res.trace))));
     runs += 1;
-    if res.watchdog {
-      harness_error = Some(format!("watchdog: run {} of worker {} (seed {}) did not finish within {:?}", r, worker, seed, watchdog));
-      break;
+    if res.free_run {
+      free_runs += 1;
     }
     if let Some(why) = &res.abort {
       if why.starts_with("harness-panic") {
@@ -318,6 +319,7 @@ pub fn explore(args: &[String]) -> i32 {
         break;
       }
       violations.push(Violation { obligation: "P", key: String::new(), detail: why.clone(), run: run_index, history_from: run_index.saturating_sub(199), history_text: None });
+      hung = res.watchdog;
       break;
     }
     // statistics
@@ -459,14 +461,19 @@ pub fn explore(args: &[String]) -> i32 {
       samples.push(format!("{{\"worker\":{},\"run\":{},\"run_seed\":{},\"threads\":{},\"policy\":\"{}\",\"ops\":{},\"refusals\":{},\"lock_unwinds\":{},\"steps\":{},\"reset_before\":{},\"first_ops\":[{}]}}", worker, r, run_seed, sw.threads, sw.policy.name(), evals.len(), run_refusals, run_unwinds, res.stats.steps, reset, first_ops.iter().map(|s| format!("\"{}\"", esc(s))).collect::<Vec<_>>().join(",")));
     }
     if digest {
-      digest_lines.push(format!("D {} {:016x} {:016x} {:016x} {}", r, res.log_hash, eval_hash, fnv(FNV0, &res.trace), res.stats.steps));
+      if res.free_run {
+        // left simulator control (a lock outside the seam): scheduled by the OS, not comparable
+        digest_lines.push(format!("D {} FREE {:016x}", r, eval_hash));
+      } else {
+        digest_lines.push(format!("D {} {:016x} {:016x} {:016x} {}", r, res.log_hash, eval_hash, fnv(FNV0, &res.trace), res.stats.steps));
+      }
     }
     if violations.len() >= 8 {
       break;
     }
     r += 1;
   }
-  if harness_error.is_none() && !stop_worker && violations.iter().all(|v| v.obligation != "P") && !pending.is_empty() {
+  if harness_error.is_none() && !stop_worker && !hung && violations.iter().all(|v| v.obligation != "P") && !pending.is_empty() {
     cold_phase!();
   }
   let _ = last_reset_run;
@@ -475,6 +482,7 @@ pub fn explore(args: &[String]) -> i32 {
   let mut o = String::new();
   o.push_str("{\n");
   let _ = write!(o, "\"mode\":\"explore\",\"seed\":{},\"worker\":{},\"runs\":{},\"wall_s\":{:.3},", seed, worker, runs, t0.elapsed().as_secs_f64());
+  let _ = write!(o, "\"free_run_runs\":{},\"hung\":{},", free_runs, hung);
   let _ = write!(o, "\"cold_evaluations\":{},\"cold_comparisons\":{},", cold_evaluations, cold_comparisons);
   let _ = write!(o, "\"evaluations\":{},\"comparisons\":{},\"r_checks\":{},\"handle_evaluations\":{},", evaluations, comparisons, r_checks, handle_evals);
   let _ = write!(o, "\"refusals\":{},\"refusals_through_lock_unwind\":{},\"runs_ending_with_poisoned_lock\":{},", refusals_err, refusals_panic, refusals_poison);
@@ -542,9 +550,9 @@ pub fn explore(args: &[String]) -> i32 {
   }
   if harness_error.is_some() {
     eprintln!("HARNESS-ERROR {}", harness_error.unwrap());
-    // threads of the stuck run may still be parked; leave without joining them
     return 2;
   }
+  // after a hang the stuck thread is still there; main() leaves through process::exit
   0
 }
 
@@ -563,15 +571,41 @@ fn valid_months() -> Vec<(i64, i64, u64)> {
   v
 }
 
+/// One single-thread run made of `queries`, executed under the simulator (so that the step
+/// budget and the progress watchdog apply). Returns (class, digest) per query, or the abort reason
+/// and the number of queries that completed.
+fn batch(queries: &[Query], hash_seed: u64, reset: bool, watchdog: Duration) -> Result<Vec<(char, u64)>, (String, usize)> {
+  let ops: Vec<crate::script::Op> = queries.iter().map(|q| crate::script::Op::Q { q: q.clone(), stop: false }).collect();
+  let script = crate::script::RunScript { threads: vec![ops], policy: crate::sched::Policy::Seq, sched_seed: 0, hash_seed, reset, fault_free: true };
+  let out = exec_run_opt(&script, false, false, watchdog, false);
+  if let Some(a) = &out.result.abort {
+    return Err((a.clone(), out.evals.len()));
+  }
+  let mut evals: Vec<&EvalRec> = out.evals.iter().collect();
+  evals.sort_by_key(|e| e.op);
+  Ok(evals.iter().map(|e| (e.class, e.digest)).collect())
+}
+
+fn batch_script(queries: &[Query], hash_seed: u64) -> String {
+  let mut s = format!("run threads=1 policy=seq sched=0 hash={} reset=1\n", hash_seed);
+  for q in queries {
+    s.push_str(&format!("t0 q {}\n", q.key()));
+  }
+  s.push_str("end\n");
+  s
+}
+
 pub fn sweep(args: &[String]) -> i32 {
   let seed = arg_u64(args, "--seed", 20260926);
   let index = arg_u64(args, "--index", 0);
   let out = arg(args, "--out");
+  let watchdog = Duration::from_secs(arg_u64(args, "--watchdog", 30));
   let t0 = Instant::now();
   install_hooks();
   reset_library();
   let mut rng = Rng::new(mix(mix(seed, 0x7377656570), index));
-  tyme4rs::tyme::verif::set_hash_seed(rng.next_u64() | 1);
+  let hash_seed = rng.next_u64() | 1;
+  tyme4rs::tyme::verif::set_hash_seed(hash_seed);
   let valid = valid_months();
   let n = valid.len();
   // each valid month twice (miss path, later hit path), plus invalid requests sprinkled in
@@ -588,49 +622,75 @@ pub fn sweep(args: &[String]) -> i32 {
   let mut misses = 0u64;
   let mut invalid_asked = 0u64;
   let mut sample: Vec<String> = Vec::new();
-  for (pos, &ix) in order.iter().enumerate() {
-    let (y, m, d) = valid[ix as usize];
-    let q = Query::new(K_LM_FROM_YM, vec![y, m]);
-    let o = q.eval();
-    evaluations += 1;
-    if seen[ix as usize] == 0 {
-      misses += 1;
-    } else {
-      hits += 1;
-    }
-    seen[ix as usize] += 1;
-    if o.class() != 'K' || o.digest() != d {
-      if violations.len() < 8 {
-        let expected = Query::new(K_LM_NEW, vec![y, m]).eval();
-        violations.push(format!("{{\"obligation\":\"R\",\"key\":\"{}\",\"position\":{},\"ask\":{},\"got_class\":\"{}\",\"got\":\"{}\",\"expected\":\"{}\"}}", esc(&q.key()), pos, seen[ix as usize], o.class(), esc(o.text()), esc(expected.text())));
-      }
-    }
-    if sample.len() < 3 {
-      sample.push(format!("\"{} -> {}\"", esc(&q.key()), esc(o.text())));
-    }
-    // an invalid request now and then: must be refused, whatever is cached
-    if rng.chance(1, 16) {
-      let (by, bm) = match rng.below(4) {
-        0 => (y, -m),
-        1 => (y, m + if m > 0 { 12 } else { -12 }),
-        2 => (y * 10 + m.abs() / 10, m.abs() % 10),
-        _ => (y + 10000, m),
-      };
-      let is_valid = bm != 0 && bm.abs() <= 12 && by >= 0 && by <= 9999 && Query::new(K_LM_NEW, vec![by, bm]).eval().class() == 'K';
-      if !is_valid {
-        invalid_asked += 1;
-        let bo = Query::new(K_LM_FROM_YM, vec![by, bm]).eval();
-        evaluations += 1;
-        if bo.class() != 'R' && violations.len() < 8 {
-          violations.push(format!("{{\"obligation\":\"I\",\"key\":\"LM.from_ym {} {}\",\"position\":{},\"ask\":0,\"got_class\":\"K\",\"got\":\"{}\",\"expected\":\"refusal\"}}", by, bm, pos, esc(bo.text())));
+  let mut hung = false;
+  let mut pos = 0usize;
+  let mut first_chunk = true;
+  while pos < order.len() && violations.len() < 8 {
+    let end = (pos + 4096).min(order.len());
+    // expectation per query: Some(index into valid) or None (must be refused)
+    let mut qs: Vec<Query> = Vec::new();
+    let mut expect: Vec<Option<u32>> = Vec::new();
+    for &ix in &order[pos..end] {
+      let (y, m, _) = valid[ix as usize];
+      qs.push(Query::new(K_LM_FROM_YM, vec![y, m]));
+      expect.push(Some(ix));
+      if rng.chance(1, 16) {
+        let (by, bm) = match rng.below(4) {
+          0 => (y, -m),
+          1 => (y, m + if m > 0 { 12 } else { -12 }),
+          2 => (y * 10 + m.abs() / 10, m.abs() % 10),
+          _ => (y + 10000, m),
+        };
+        let is_valid = bm != 0 && bm.abs() <= 12 && by >= 0 && by <= 9999 && Query::new(K_LM_NEW, vec![by, bm]).eval().class() == 'K';
+        if !is_valid {
+          qs.push(Query::new(K_LM_FROM_YM, vec![by, bm]));
+          expect.push(None);
         }
       }
     }
-    if violations.len() >= 8 {
-      break;
+    match batch(&qs, hash_seed, first_chunk, watchdog) {
+      Err((why, done)) => {
+        hung = why.starts_with("watchdog");
+        let upto = (done + 1).min(qs.len());
+        violations.push(format!("{{\"obligation\":\"P\",\"key\":\"\",\"position\":{},\"detail\":\"{}\",\"history\":\"{}\"}}", pos + done, esc(&why), esc(&batch_script(&qs[..upto], hash_seed))));
+        break;
+      }
+      Ok(ans) => {
+        for (k, q) in qs.iter().enumerate() {
+          evaluations += 1;
+          let (c, d) = ans[k];
+          match expect[k] {
+            Some(ix) => {
+              if seen[ix as usize] == 0 {
+                misses += 1;
+              } else {
+                hits += 1;
+              }
+              seen[ix as usize] += 1;
+              if (c != 'K' || d != valid[ix as usize].2) && violations.len() < 8 {
+                let got = q.eval();
+                let expected = Query::new(K_LM_NEW, q.args.clone()).eval();
+                violations.push(format!("{{\"obligation\":\"R\",\"key\":\"{}\",\"position\":{},\"ask\":{},\"got_class\":\"{}\",\"got\":\"{}\",\"expected\":\"{}\"}}", esc(&q.key()), pos + k, seen[ix as usize], c, esc(got.text()), esc(expected.text())));
+              }
+              if sample.len() < 3 {
+                sample.push(format!("\"{} -> {}{:016x}\"", esc(&q.key()), c, d));
+              }
+            }
+            None => {
+              invalid_asked += 1;
+              if c != 'R' && violations.len() < 8 {
+                let got = q.eval();
+                violations.push(format!("{{\"obligation\":\"I\",\"key\":\"{}\",\"position\":{},\"ask\":0,\"got_class\":\"K\",\"got\":\"{}\",\"expected\":\"refusal\"}}", esc(&q.key()), pos + k, esc(got.text())));
+              }
+            }
+          }
+        }
+      }
     }
+    first_chunk = false;
+    pos = end;
   }
-  let (_, clen, p1, _, _) = lunar_state_hash();
+  let (clen, p1) = if hung { (0, false) } else { let x = lunar_state_hash(); (x.1, x.2) };
   let mut o = String::new();
   let _ = write!(o, "{{\"mode\":\"sweep\",\"seed\":{},\"index\":{},\"valid_months\":{},\"evaluations\":{},\"miss_path\":{},\"hit_path\":{},\"invalid_requests\":{},\"cache_len_after\":{},\"cache_poisoned_after\":{},\"wall_s\":{:.3},\"samples\":[{}],\"violations\":[{}]}}\n", seed, index, n, evaluations, misses, hits, invalid_asked, clen, p1, t0.elapsed().as_secs_f64(), sample.join(","), violations.join(","));
   write_out(out, &o);
@@ -641,62 +701,84 @@ pub fn hashorder(args: &[String]) -> i32 {
   let seed = arg_u64(args, "--seed", 20260926);
   let orders = arg_u64(args, "--orders", 8);
   let out = arg(args, "--out");
+  let watchdog = Duration::from_secs(arg_u64(args, "--watchdog", 30));
   let t0 = Instant::now();
   install_hooks();
   reset_library();
-  tyme4rs::tyme::verif::set_hash_seed(0);
-  let eval_year = |y: i64| -> (char, u64) {
-    let o = Query::new(kind_by_name("LY.misc").unwrap(), vec![y]).eval();
-    (o.class(), o.digest())
-  };
-  let mut base: Vec<(char, u64)> = Vec::with_capacity(10001);
-  for y in -1..=9999i64 {
-    base.push(eval_year(y));
-  }
-  let mut rng = Rng::new(mix(seed, 0x68617368));
+  let k_misc = kind_by_name("LY.misc").unwrap();
+  let k_months = kind_by_name("LY.months").unwrap();
+  let years: Vec<Query> = (-1..=9999i64).map(|y| Query::new(k_misc, vec![y])).collect();
   let mut violations: Vec<String> = Vec::new();
-  let mut evaluations = base.len() as u64;
+  let mut evaluations = 0u64;
   let mut seeds_used: Vec<u64> = Vec::new();
   let mut distinct_orders: HashSet<u64> = HashSet::new();
-  for _ in 0..orders {
-    let hs = rng.next_u64() | 1;
-    seeds_used.push(hs);
-    tyme4rs::tyme::verif::set_hash_seed(hs);
-    // fingerprint of the iteration order this seed produces for a 12-key map like the table's
-    let mut m: tyme4rs::tyme::verif::HashMap<usize, u8> = tyme4rs::tyme::verif::HashMap::new();
-    for k in 1..=12usize {
-      m.insert(k, 0);
+  let mut rng = Rng::new(mix(seed, 0x68617368));
+  let mut p_violation = |why: String, done: usize, qs: &[Query], hs: u64, violations: &mut Vec<String>| {
+    let upto = (done + 1).min(qs.len());
+    violations.push(format!("{{\"obligation\":\"P\",\"key\":\"\",\"hash_seed\":{},\"detail\":\"{}\",\"history\":\"{}\"}}", hs, esc(&why), esc(&batch_script(&qs[done.min(upto - 1)..upto], hs))));
+  };
+  let base = match batch(&years, 0, true, watchdog) {
+    Ok(b) => b,
+    Err((why, done)) => {
+      p_violation(why, done, &years, 0, &mut violations);
+      Vec::new()
     }
-    let mut fp = FNV0;
-    for (k, _) in m.iter() {
-      fp = fnv(fp, &[*k as u8]);
-    }
-    distinct_orders.insert(fp);
-    for y in -1..=9999i64 {
-      let r = eval_year(y);
-      evaluations += 1;
-      if r != base[(y + 1) as usize] && violations.len() < 8 {
-        violations.push(format!("{{\"obligation\":\"H\",\"key\":\"LY.misc {}\",\"hash_seed\":{},\"detail\":\"differs from the answer under hash seed 0\"}}", y, hs));
-      }
-    }
-    // months of leap years depend on the leap month: sample a few through the memo as well
-    reset_library();
-    for _ in 0..200 {
-      let y = rng.range(0, 9999);
-      let q = Query::new(kind_by_name("LY.months").unwrap(), vec![y]);
-      let a = q.eval();
-      tyme4rs::tyme::verif::set_hash_seed(0);
-      reset_library();
-      let b = q.eval();
+  };
+  evaluations += base.len() as u64;
+  if !base.is_empty() {
+    for _ in 0..orders {
+      let hs = rng.next_u64() | 1;
+      seeds_used.push(hs);
       tyme4rs::tyme::verif::set_hash_seed(hs);
-      reset_library();
-      evaluations += 2;
-      if (a.class() != b.class() || a.digest() != b.digest()) && violations.len() < 8 {
-        violations.push(format!("{{\"obligation\":\"H\",\"key\":\"{}\",\"hash_seed\":{},\"detail\":\"differs from the answer under hash seed 0\"}}", esc(&q.key()), hs));
+      // fingerprint of the iteration order this seed produces for a 12-key map like the table's
+      let mut m: tyme4rs::tyme::verif::HashMap<usize, u8> = tyme4rs::tyme::verif::HashMap::new();
+      for k in 1..=12usize {
+        m.insert(k, 0);
       }
-    }
-    if violations.len() >= 8 {
-      break;
+      let mut fp = FNV0;
+      for (k, _) in m.iter() {
+        fp = fnv(fp, &[*k as u8]);
+      }
+      distinct_orders.insert(fp);
+      match batch(&years, hs, true, watchdog) {
+        Err((why, done)) => {
+          p_violation(why, done, &years, hs, &mut violations);
+          break;
+        }
+        Ok(ans) => {
+          for (k, a) in ans.iter().enumerate() {
+            evaluations += 1;
+            if *a != base[k] && violations.len() < 8 {
+              violations.push(format!("{{\"obligation\":\"H\",\"key\":\"{}\",\"hash_seed\":{},\"detail\":\"differs from the answer under hash seed 0\"}}", esc(&years[k].key()), hs));
+            }
+          }
+        }
+      }
+      // the months of a year depend on its leap month: a sample through the memo as well
+      let sample: Vec<Query> = (0..200).map(|_| Query::new(k_months, vec![rng.range(0, 9999)])).collect();
+      let a = batch(&sample, hs, true, watchdog);
+      let b = batch(&sample, 0, true, watchdog);
+      match (a, b) {
+        (Ok(a), Ok(b)) => {
+          for k in 0..sample.len() {
+            evaluations += 2;
+            if a[k] != b[k] && violations.len() < 8 {
+              violations.push(format!("{{\"obligation\":\"H\",\"key\":\"{}\",\"hash_seed\":{},\"detail\":\"differs from the answer under hash seed 0\"}}", esc(&sample[k].key()), hs));
+            }
+          }
+        }
+        (Err((why, done)), _) => {
+          p_violation(why, done, &sample, hs, &mut violations);
+          break;
+        }
+        (_, Err((why, done))) => {
+          p_violation(why, done, &sample, 0, &mut violations);
+          break;
+        }
+      }
+      if violations.len() >= 8 {
+        break;
+      }
     }
   }
   tyme4rs::tyme::verif::set_hash_seed(0);
@@ -734,7 +816,8 @@ pub fn replay(args: &[String]) -> i32 {
   for (i, script) in runs.iter().enumerate() {
     let out = exec_run(script, true, true, watchdog);
     let res = &out.result;
-    println!("RUN {} threads={} steps={} log={:016x} diverged={} trace={} abort={}", i, script.threads.len(), res.stats.steps, res.log_hash, if res.diverged { 1 } else { 0 }, trace_to_text(&res.trace), match &res.abort {
+    let owners: Vec<String> = res.trace_owner.iter().map(|(t, o)| format!("{}:{}", t, o)).collect();
+    println!("RUN {} threads={} steps={} log={:016x} diverged={} trace={} owners={} abort={}", i, script.threads.len(), res.stats.steps, res.log_hash, if res.diverged { 1 } else { 0 }, trace_to_text(&res.trace), owners.join("."), match &res.abort {
       Some(a) => a.replace('\n', " "),
       None => "-".to_string(),
     });
